@@ -659,11 +659,17 @@ func (it *Interp) execBlock(fr *frame, b *lg.Block, after func() bool) (sig sign
 				le, _ := it.closeTBC(fr, base, e, true)
 				panic(le)
 			case coClose:
+				// the coroutine is being closed: an error raised by a handler is the
+				// result of the close; it is not an error of the coroutine's code, so
+				// no pcall inside the coroutine can catch it
 				le, isErr := it.closeTBC(fr, base, nil, false)
 				if isErr {
-					panic(le)
+					panic(coCloseErr{le})
 				}
 				panic(r)
+			case coCloseErr:
+				le, _ := it.closeTBC(fr, base, e.err, true)
+				panic(coCloseErr{le})
 			default:
 				// unspecified / abort: drop without running handlers
 				fr.tbc = fr.tbc[:base]
@@ -1064,9 +1070,12 @@ func (it *Interp) execGenFor(fr *frame, n *lg.GenFor) (sig signal) {
 			case coClose:
 				le, isErr := it.closeTBC(fr, base, nil, false)
 				if isErr {
-					panic(le)
+					panic(coCloseErr{le})
 				}
 				panic(r)
+			case coCloseErr:
+				le, _ := it.closeTBC(fr, base, e.err, true)
+				panic(coCloseErr{le})
 			default:
 				fr.tbc = fr.tbc[:base]
 				panic(r)
